@@ -371,6 +371,7 @@ func c19HistOps() []c19HistOp {
 var c19CorpusTexts = []string{`-$[*]`, `+$[*]`, `$[*] + 1`, `$[*] * -1`, `1 - $[0]`, `$[0] % 2`, `$[0] / 3`, `$[*].abs()`, `$[*].floor()`, `$[*].ceiling()`, `$[*].double()`, `$[*].integer()`, `$[*].bigint()`,
 	`$[*].number()`, `$[*].decimal()`, `$[*].decimal(20,1)`, `$[*].decimal(25,3)`, `$[*].decimal(3,1)`, `$[*].decimal(19,0)`, `$[*].string()`, `$[*].boolean()`, `$[*].type()`, `$.size()`, `$[*] ? (@ > 0)`,
 	`$[*] ? (@ == 1)`, `$[*] ? (@ like_regex "^x")`, `$[*] ? (@ starts with "x")`, `$[*].datetime()`, `$[*].date()`, `$[*].timestamp_tz()`, `$.keyvalue()`, `$.**`, `$.*`, `$[*] == 1`, `$[*] < -1`, `$[last]`, `$[0 to 1]`,
+	`$[$[*].integer()]`, `$[0 to $[*].double()]`, `$.b[$.b[*]]`, `$[$[0], $[2].integer()]`, `$ ? (@[$[*].integer()] > 0)`, `$[last, $[*].integer()]`,
 	`strict $[*].double()`, `strict -$[*]`, `$.a`, `$.b[*] + $.a`, `(-$[*]).abs()`, `(+$[*]).string()`, `$[*] ? (-@ < 0)`, `$[*] ? (@.decimal(20,1) > 0)`}
 
 var c19CorpusDocs = []string{`[-7.5,5,"x"]`, `[1,-1,"2015-08-02"]`, `{"a":-3,"b":[1,2]}`, `[-9223372036854775808,100000000000000000000,0.001]`, `[3,2,1]`, `[-1,-2,-3]`}
@@ -447,6 +448,10 @@ func c19History(c Case, r *Run) *Failure {
 	if c.Extra["depth"] != "" {
 		fmt.Sscan(c.Extra["depth"], &maxDepth)
 	}
+	force := 2 // histories of <= force calls are extended whether or not the Path's fingerprint changed
+	if c.Extra["force"] != "" {
+		fmt.Sscan(c.Extra["force"], &force)
+	}
 	base := make([]string, len(ops))
 	for i, op := range ops {
 		base[i] = op.run(sc.fresh())
@@ -495,7 +500,7 @@ func c19History(c Case, r *Run) *Failure {
 				}
 				// State kept outside the Path (a package-level cache or pool) does not show in the
 				// fingerprint: every history of <= 2 calls is extended whether or not the Path changed.
-				if fresh || depth < 2 {
+				if fresh || depth < force {
 					next = append(next, append(append([]int{}, hist...), i))
 				}
 			}
@@ -665,7 +670,7 @@ func tail(s string, n int) string {
 // ---- run ----
 
 func runC19(r *Run) {
-	r.Rule("(a) stateless schedule exploration under a controlled cooperative scheduler (real goroutines, one runnable at a time; scheduling points = every ctx.Done() poll, i.e. every executed path item, and every lexer token for Parse): every unordered pair of entry points {Query,First,Exists,Match,String} on one shared *Path for each of 28 pool paths (regex, datetime with context zone, keyvalue, variables, nested filters, .**, subscripts, arithmetic, operands yielding an array then a scalar), every pair of pool paths sharing document and variables, triples of a 10-path core, and pairs of concurrent Parse+Query/String at token granularity; depth-first over all schedules with <= B preemptions; oracle: every call returns its solo result and the shared document/variables (incl. hidden slice capacity) are unchanged. (b) explicit-state BFS over call histories on one Path per pool path, with the shared document decoded as float64 and as json.Number: state = reflect fingerprint of the Path (private AST fields); 12 operations (the five entry points, a corpus of 45 other Paths over 6 other documents in both number representations, Parse of the same text by another holder who then re-loads its own object, Value/MarshalBinary, a cancelled silent Query, Query without WithTZ, Query on another document, and calls on other Paths whose operands deliver items and then fail); all histories of <= 2 calls are extended regardless of the fingerprint (state outside the Path), longer ones while the fingerprint is new; every operation after every history returns its initial-state result, and that result equals what the operation returns alone in a fresh process (one process per operation). (c) each pool operation three times on equal, freshly allocated inputs. (d) supplementary: the same bodies free-running under the race detector. non-trivial = schedules with at least one preemption")
+	r.Rule("(a) stateless schedule exploration under a controlled cooperative scheduler (real goroutines, one runnable at a time; scheduling points = every ctx.Done() poll, i.e. every executed path item, and every lexer token for Parse): every unordered pair of entry points {Query,First,Exists,Match,String} on one shared *Path for each of 28 pool paths (regex, datetime with context zone, keyvalue, variables, nested filters, .**, subscripts, arithmetic, operands yielding an array then a scalar), every pair of pool paths sharing document and variables, triples of a 10-path core, and pairs of concurrent Parse+Query/String at token granularity; depth-first over all schedules with <= B preemptions; oracle: every call returns its solo result and the shared document/variables (incl. hidden slice capacity) are unchanged. (b) explicit-state BFS over call histories on one Path per pool path, with the shared document decoded as float64 and as json.Number: state = reflect fingerprint of the Path (private AST fields); 12 operations (the five entry points, a corpus of 51 other Paths over 6 other documents in both number representations, Parse of the same text by another holder who then re-loads its own object, Value/MarshalBinary, a cancelled silent Query, Query without WithTZ, Query on another document, and calls on other Paths whose operands deliver items and then fail); all histories of <= 2 calls (json.Number document in the quick tier: <= 1 call) are extended regardless of the fingerprint (state outside the Path), longer ones while the fingerprint is new; every operation after every history returns its initial-state result, and that result equals what the operation returns alone in a fresh process (one process per operation). (c) each pool operation three times on equal, freshly allocated inputs. (d) supplementary: the same bodies free-running under the race detector. non-trivial = schedules with at least one preemption")
 	B := 2
 	if r.Thorough() {
 		B = 3
@@ -750,7 +755,11 @@ func runC19(r *Run) {
 	}
 	r.ParFor(len(c19PathPool), func(i int) {
 		for _, num := range []string{"float64", "number"} {
-			c := Case{Rule: "history", Path: c19PathPool[i], Num: num, Extra: map[string]string{"depth": depth}}
+			force := "2"
+			if num == "number" && !r.Thorough() {
+				force = "1" // quick: with the document as json.Number every single call is followed by every operation
+			}
+			c := Case{Rule: "history", Path: c19PathPool[i], Num: num, Extra: map[string]string{"depth": depth, "force": force}}
 			if f := c19History(c, r); f != nil {
 				r.Fail(c, f)
 			}
